@@ -130,6 +130,9 @@ class PairTabulationFactory(object):
     # logger = logging.getLogger(__name__).getChild("PairTabulationFactory.create_tabulation")
     r_cutoff = self.extract_cutoffs(cp)
 
+    # A [Species] section is checked whether or not this tabulation target makes use of it
+    cp.species
+
     # Get pair potentials
     potential_form_registry = Potential_Form_Registry(cp, register_standard = True, register_pymath_functions = True)
     # a formula that does not parse is an error of the file whether or not the tabulation evaluates it
